@@ -99,6 +99,7 @@ func (e *env) post(b []byte) *httptest.ResponseRecorder {
 }
 
 func main() {
+	wit.EnsureMetrics(nil) // before anything can reach witness.New (the e2e sessions start in their own goroutine)
 	run := ev.Start("C10", "exploration")
 	defer run.Finish()
 	run.Rule("unit = one witness (1-3 logs, production key pair, drawn store) driven only through the add-checkpoint handler by 10-40 requests: bodies written by an independent writer for every verdict class (generated hostile requests as in C01) plus malformed bodies (bad old line, bad base64, missing separator, checkpoint without newline, empty); status/content-type/body/state are judged against the reference model. The same request classes are sent end to end: omniwitness.Main connects to a stub bastion (TLS 1.3, ALPN bastion/0, client certificate carrying the configured key), the stub then speaks HTTP/2 as the client over the accepted connection, 60 requests per session incl. bodies over the 16 KiB cap. Separate units judge the rate limiter (limit 0, 1e9, and bursts at 2/s and 5/s judged by inequalities on measured elapsed time). evaluations = HTTP requests; nontrivial = distinct (expected status, model class, stored?, malformed form, store)")
@@ -120,6 +121,9 @@ func main() {
 	}()
 	defer e2eDone.Wait()
 	run.Units("seq", run.Pick(1200, 30000), 0, func(unit int64, r *rand.Rand) { sequence(run, unit, r, dir) })
+	// sizes at the top of the uint64 range: the stale-old-size answer must carry the true current size
+	run.Floor("huge_size_stale_answers", 30)
+	run.Units("huge", run.Pick(36, 360), 0, func(unit int64, r *rand.Rand) { hugeSizes(run, unit, r, dir) })
 	run.Units("limit", run.Pick(24, 200), 8, func(unit int64, r *rand.Rand) { limiter(run, unit, r, dir) })
 }
 
@@ -398,5 +402,63 @@ func limiter(run *ev.Run, unit int64, r *rand.Rand, dir string) {
 	}
 	if unit < 4 {
 		run.Sample(d)
+	}
+}
+
+// hugeSizes: the witness takes a first checkpoint whose size is near the top of the range (any root is
+// acceptable on first use); then a stale old size, an old size above the checkpoint size and a same-size
+// different root are answered. The 409 stale body must be the decimal true size.
+func hugeSizes(run *ev.Run, unit int64, r *rand.Rand, dir string) {
+	e, err := newEnv(r, dir, 1e9, 1)
+	if err != nil {
+		run.Inconclusive(err.Error())
+		return
+	}
+	defer e.rn.Store.Close()
+	l := e.rn.U.Logs[0]
+	sizes := []uint64{1 << 32, 1 << 62, 1<<63 - 1, 1 << 63, 1<<63 + 5, 1<<64 - 2, 1<<64 - 1, 1<<63 + r.Uint64N(1<<62), r.Uint64() | 1<<63}
+	size := sizes[int(unit)%len(sizes)]
+	mk := func(sz uint64, seed byte) []byte {
+		root := make([]byte, 32)
+		for i := range root {
+			root[i] = seed + byte(i)
+		}
+		text := refnote.Body(l.Origin, sz, root)
+		return refnote.Assemble(text, l.Key.SigLine(text))
+	}
+	cp := mk(size, 1)
+	rec := e.post(body("0", nil, cp))
+	run.Count("evaluations")
+	detail := map[string]any{"size": size, "first_status": rec.Code, "first_body": rec.Body.String()}
+	if rec.Code != 200 {
+		run.Violate("huge_first_checkpoint_refused", fmt.Sprintf("first checkpoint of size %d (valid log signature): status %d", size, rec.Code), unit, detail)
+		return
+	}
+	olds := []uint64{0, 5, size - 1, size / 2}
+	for _, old := range olds {
+		if old >= size {
+			continue
+		}
+		rec := e.post(body(strconv.FormatUint(old, 10), nil, cp))
+		run.Count("evaluations")
+		run.Count("huge_size_stale_answers")
+		run.Distinct("nontrivial", fmt.Sprintf("huge/top_bit=%v/old=%d", size>>63 == 1, min(old, 6)))
+		want := strconv.FormatUint(size, 10) + "\n"
+		if rec.Code != 409 || rec.Header().Get("Content-Type") != "text/x.tlog.size" || rec.Body.String() != want {
+			d := map[string]any{"size": size, "old": old, "status": rec.Code, "content_type": rec.Header().Get("Content-Type"), "resp_body": rec.Body.String(), "want_body": want}
+			run.Violate("stale_409_body;huge_size", fmt.Sprintf("witness holds size %d, old size %d: want 409 text/x.tlog.size %q, got %d %q %q", size, old, want, rec.Code, rec.Header().Get("Content-Type"), rec.Body.String()), unit, d)
+		}
+	}
+	if size < 1<<64-1 {
+		rec := e.post(body(strconv.FormatUint(size+1, 10), nil, cp))
+		run.Count("evaluations")
+		if rec.Code != 400 {
+			run.Violate("wrong_status;expect=400_old_too_large;huge_size", fmt.Sprintf("old size %d above checkpoint size %d: status %d", size+1, size, rec.Code), unit, detail)
+		}
+	}
+	rec = e.post(body(strconv.FormatUint(size, 10), nil, mk(size, 77)))
+	run.Count("evaluations")
+	if rec.Code != 409 {
+		run.Violate("wrong_status;expect=409_root_mismatch;huge_size", fmt.Sprintf("same size %d, different root: status %d", size, rec.Code), unit, detail)
 	}
 }
